@@ -22,7 +22,7 @@ RULE = ('Seeded scenarios: a real fit file of 1..10 sources (>= 1 fitted point a
         '(criterion, naming, channel, #good, #bad)).')
 ASSUMPTIONS = ['input records come from a real fit() run (their correctness is C10\'s subject)', 'a zero-byte output file is an empty list of records',
                'thresholds are > 0 and never equal to an attained value']
-PROBES = ['good_empty', 'bad_empty', 'both_nonempty', 'auto_names', 'channel_list', 'second_split', 'best_chi2_ge_1e30']
+PROBES = ['good_empty', 'bad_empty', 'both_nonempty', 'auto_names', 'channel_list', 'second_split', 'best_chi2_ge_1e30', 'output_names_reused']
 
 
 def budgets(tier):
@@ -52,10 +52,16 @@ def generate(rng, tier, idx):
           'fit_sel': rng.choice([['A', 0], ['A', 0], ['N', rng.randint(1, 4)], ['F', 3.3]]),
           'output_convolved': rng.random() < 0.3, 'clock': pipe.gen_clock(rng)}
     steps = []
-    for k in range(rng.choice([1, 1, 2])):
-        steps.append({'criterion': rng.choice(['chi', 'cpd']), 'threshold': float('%.4g' % (10 ** rng.uniform(-2, 6))) if rng.random() < 0.85 else rng.choice([1e29, 1e31]),
+    for k in range(rng.choice([1, 1, 2, 3])):
+        steps.append({'criterion': rng.choice(['chi', 'cpd']), 'threshold': float('%.4g' % (10 ** rng.uniform(-2, 6))) if rng.random() < 0.8 else rng.choice([1e29, 1e31, 1e-9]),
                       'naming': rng.choice(['explicit', 'auto']), 'channel': rng.choice(['path', 'list']),
-                      'input': 'fit' if k == 0 else rng.choice(['good', 'bad'])})
+                      # later steps either split an output of the previous step, or re-filter the SAME input again (tuning the
+                      # threshold), in which case the outputs of the earlier run are still lying around under the same names
+                      'input': 'fit' if k == 0 else rng.choice(['good', 'bad', 'fit', 'fit']),
+                      'reuse_names': rng.random() < 0.6})
+    if rng.random() < 0.3:
+        from ..author import prelude_spec
+        sc['prelude'] = {'world': prelude_spec(w, rng), 'seed': rng.randrange(1 << 30)}
     sc['steps'] = steps
     return sc
 
@@ -89,6 +95,9 @@ def _execute(sc, sim, out):
         return
     trace = [sc['world']['format'], len(recs)]
     files = {'fit': outp}
+    last_explicit = None
+    auto_seen = set()
+    auto_names = {}
     for i, st in enumerate(sc['steps']):
         inp = files.get(st['input'])
         if inp is None or not os.path.exists(inp) or os.path.getsize(inp) == 0:
@@ -117,6 +126,10 @@ def _execute(sc, sim, out):
         kw = {st['criterion']: th}
         if naming == 'explicit':
             g, b = sim.path('split%d.good' % i), sim.path('split%d.bad' % i)
+            if st.get('reuse_names') and last_explicit is not None and inp not in last_explicit:
+                g, b = last_explicit
+                out.probe('output_names_reused')
+            last_explicit = (g, b)
             r = pipe.call(filter_output, arg, output_good=g, output_bad=b, **kw)
         else:
             out.probe('auto_names')
@@ -126,6 +139,10 @@ def _execute(sc, sim, out):
             break
         new = sorted(set(os.listdir(sim.root)) - before - {'_tmp'})
         if naming == 'auto':
+            if inp in auto_seen:
+                # the same input was split with automatic names before: the outputs replace the earlier ones
+                new = sorted(os.path.basename(x) for x in auto_names[inp])
+                out.probe('output_names_reused')
             if len(new) != 2:
                 out.violate('two-files', 'automatic naming produced %s' % new)
                 break
@@ -145,6 +162,8 @@ def _execute(sc, sim, out):
                 out.violate('two-files', 'cannot tell the good from the bad file among %s' % new)
                 break
             g, b = sim.path(gname[0]), sim.path(bname[0])
+            auto_seen.add(inp)
+            auto_names[inp] = (g, b)
         rg = pipe.call(_read, g)
         rb = pipe.call(_read, b)
         if rg[0] != 'ok' or rb[0] != 'ok' or rg[1] is None or rb[1] is None:
@@ -174,12 +193,14 @@ def _execute(sc, sim, out):
         out.probe('good_empty' if not G else ('bad_empty' if not B else 'both_nonempty'))
         if i > 0:
             out.probe('second_split')
-        files = {'good': g, 'bad': b}
+        files = {'fit': outp, 'good': g, 'bad': b}
         trace.append((st['criterion'], naming, channel, len(G), len(B)))
     out.trace = trace
 
 
 def lowerings(sc, viol=None):
+    if sc.get('prelude'):
+        yield dict(sc, prelude=None)
     for i in range(len(sc['sources'])):
         if len(sc['sources']) > 1:
             yield dict(sc, sources=sc['sources'][:i] + sc['sources'][i + 1:])
